@@ -9,7 +9,13 @@ RULE = ("one call compute_domains_<type>(box, params) on the real function, judg
 
 
 def main(tier, seed):
-    rep = callfamily.run("C05", tier, seed, O.TYPES, "exploration", RULE)
+    from framework.props import bigrun
+
+    rep = callfamily.run("C05", tier, seed, O.TYPES, "exploration", RULE,
+                         extra_jobs=bigrun.interp_jobs("C05", tier, seed + 9, ["budget", "calls"],
+                                                       monitor_opts={"calls": {"hull_limit": 3000}}),
+                         extra_aggregate=bigrun.aggregate)
+    rep.need("calls.distinct_judged", 1000, "in-engine executions on large models judged against the exact hull")
     return rep.finish()
 
 
